@@ -12,7 +12,12 @@ from harness import gen
 THEOREMS = {
     'RsomeV.Props.C08': [
         'RsomeV.C08.lp_dual_weak',
-        # TODO more
+        'RsomeV.C08.lp_dual_strong',
+        'RsomeV.C08.lp_dual_value',
+        'RsomeV.C08.soc_dual_weak',
+        'RsomeV.C08.soc_layout1_weak',
+        'RsomeV.C08.cone_dual_weak',
+        'RsomeV.C08.exp_dual_weak',
     ],
 }
 RULE = ("random deterministic / ro models built through the public API with every bound pattern per variable "
@@ -88,6 +93,16 @@ def run(ctx):
         for t in out.get('branches', []):
             ctx.count('model-branch:' + t)
         ok = ctx.corr('do_math(primal=False)', case, dj, out, keys)
+        # well-formedness hypotheses of the theorems (ConeProg.WF, hxq), re-checked on the real program
+        nc_ = pj['nc']
+        wf = (all(j < nc_ for q in pj['qmat'] for j in q) and all(len(e) == 3 and all(j < nc_ for j in e) for e in pj['xmat'])
+              and all(pj['ub'][j] != '0' for e in pj['xmat'] for j in e)
+              and all((v == '0') or (k in pj['sp'][i]) for i, row in enumerate(pj['a']) for k, v in enumerate(row))
+              and not (set(j for e in pj['xmat'] for j in e) & set(j for q in pj['qmat'] for j in q)))
+        if not wf:
+            ctx.disagree('hypothesis ConeProg.WF', {"qmat": pj['qmat'], "xmat": pj['xmat']}, case)
+        else:
+            ctx.count('hyp:WF')
         if kind != 'support':
             # hypothesis of soc_layout1_weak: cone columns carry no cost (holds for every obj=True program)
             conecols = [j for q in pj['qmat'] for j in q] + [j for q in pj['xmat'] for j in q]
